@@ -194,7 +194,7 @@ func (d *Dialer[T]) Dial(ctx context.Context, network, addr string, tc *tls.Conf
 		}
 	}
 
-	needECH := tc.EncryptedClientHelloConfigList == nil
+	needECH := len(tc.EncryptedClientHelloConfigList) == 0 // an empty list is no list
 	if needECH && d.PublicName != "" {
 		id := make([]byte, 1)
 		if _, err := io.ReadFull(rand.Reader, id); err != nil {
